@@ -25,11 +25,11 @@ CLAIMS = {
          "Tie: field/element extents, get_fixed_size, iterator.data() vs reference.data_begin().",
          "5 C04"),
  "C05": ("proof (tight packing as part of the representation invariant, preserved by every operation: induction over histories) + correspondence",
-         "Theorems C05_fields_tightly_packed (every field at the least aligned address after its predecessor, every list), C05_elements_tightly_packed, C05_fixed_element_size_exact, and at history level C05_represented_states_are_tightly_packed / C05_every_history_tightly_packed: after EVERY valid history (trivially relocatable lists) element i starts exactly at align_for_first_parameter(end of element i-1), element 0 at the start of the block, data_end() is the end of the last element or the aligned address behind it (Rep.r_tight, proved per operation in Refine.v). PARTIAL: footprint clause (iii) across copy/move/assignment is checked by the correspondence and oracle. "
+         "Theorems C05_fields_tightly_packed (every field at the least aligned address after its predecessor, every list), C05_elements_tightly_packed, C05_fixed_element_size_exact, and at history level C05_represented_states_are_tightly_packed / C05_every_history_tightly_packed(_every_list): after EVERY valid history (every well-formed list; erase with a tail only on trivially relocatable lists) element i starts exactly at align_for_first_parameter(end of element i-1), element 0 at the start of the block, data_end() is the end of the last element or the aligned address behind it (Rep.r_tight, proved per operation in Refine.v). PARTIAL: footprint clause (iii) across copy/move/assignment is checked by the correspondence and oracle. "
          "Tie: field addresses vs greedy layout, memory_consumption().",
          "5 C05"),
  "C02": ("proof (capacity arithmetic: all-fixed lists exactly, VaryingSize lists with a benign tail by induction over the size computation; Rep bounds) + refutation witness for the remaining lists + correspondence with guard zones",
-         "Theorems C02_fixed_capacity_sufficient (every list without VaryingSize parameter: N elements fit the block, via esize_spec), C02_varying_capacity_sufficient (every well-formed list whose tail is benign - last parameter VaryingSize, or a storage-aligned parameter behind the last VaryingSize one: N elements placed as emplace_back does with any varying counts of total payload <= B end inside SA*units(needed N B (esize L fixed)); NeededThm.v: aligned_size_in_memory over-approximates the bytes the placement uses and keeps address = offset modulo bracket), C02_every_history_stays_inside_the_block (construction then ANY valid history incl. erase and reserve within the documented limits - a ghost budget follows the history - keeps every element inside the owned block; invariant BInv = Rep with tight packing + needed(capacity,budget) <= block; trivially relocatable lists with benign tail), C02_single_element_fits (every list), C02_elements_inside_data (Rep: every element inside [data_begin,data_end)), "
+         "Theorems C02_fixed_capacity_sufficient (every list without VaryingSize parameter: N elements fit the block, via esize_spec), C02_varying_capacity_sufficient (every well-formed list whose tail is benign - last parameter VaryingSize, or a storage-aligned parameter behind the last VaryingSize one: N elements placed as emplace_back does with any varying counts of total payload <= B end inside SA*units(needed N B (esize L fixed)); NeededThm.v: aligned_size_in_memory over-approximates the bytes the placement uses and keeps address = offset modulo bracket), C02_every_history_stays_inside_the_block (construction then ANY valid history incl. erase and reserve within the documented limits - a ghost budget follows the history - keeps every element inside the owned block; invariant BInv = Rep with tight packing + needed(capacity,budget) <= block; trivially relocatable lists with benign tail; C02_every_history_stays_inside_the_block_every_list: every well-formed list with benign tail incl. non-trivial value types), C02_single_element_fits (every list), C02_elements_inside_data (Rep: every element inside [data_begin,data_end)), "
          "C02_varying_capacity_refuted (vm_compute witness that the formula under-estimates a list with a 1-aligned tail behind the last VaryingSize parameter, tail_ok = false = known finding). "
          "Tie: fills to the documented limits under a guard-zone allocator, field extents vs memory_consumption(); an overrun on a list with benign tail is never accepted as the known finding.",
          "5 C02"),
